@@ -651,6 +651,7 @@ func main() {
 	}
 	if os.Getenv("C05_DEBUG") != "" {
 		var ms runtime.MemStats
+		runtime.GC()
 		runtime.ReadMemStats(&ms)
 		fmt.Fprintf(os.Stderr, "debug: opens=%d heapAlloc=%dMB sys=%dMB numGC=%d goroutines=%d\n", openCount, ms.HeapAlloc>>20, ms.Sys>>20, ms.NumGC, runtime.NumGoroutine())
 	}
